@@ -25,7 +25,7 @@ def predicate(c, o):
         if er != 0 and ln != 16: bad.append(('error reply carries a body', {'kind': 'errbody'}))
     if op in (2, 42) and replies: bad.append(('FORGET/BATCH_FORGET (opcode %d) produced a reply' % op, {'kind': 'forget-reply', 'op': op}))
     q = c.get('wf')
-    if q and c['remap'] != 'fail' and q['op'] in S.NEEDS_REPLY and c['cap'] >= 65536:
+    if q and c['remap'] != 'fail' and q['op'] in S.NEEDS_REPLY and c['cap'] >= 8192:     # every generated reply is < 8 KiB, so it fits
         # DESTROY: handle_message returns Ok(0) although it wrote a reply; on virtio the used length is the caller's
         # business, so the reply is not visible through the returned length (recorded in DESIGN.md)
         if len(replies) != 1 and not (q['op'] == 38 and c['tr'] == 'virtio'):
